@@ -14,7 +14,7 @@ ROUTER_NOTE = ("Proof level holds for the router-core MODEL (coq/Router): hand-w
                "publishfilter.go as repaired by the fix: commits. The model is tied to the code (a) by go/cmd/genrouter + Router/GenConform.v "
                "(constants, meta procedure table: re-checked every run) and (b) by the correspondence run: generated histories executed by the "
                "real router in testing/synctest bubbles and by the extracted model, canonicalised observations and table sizes compared after "
-               "every op (sampling, not proof). Outside the model: queue overflow, transports/serializers, goroutine "
+               "every op (sampling, not proof). Outside the model: RealmConfig.MetaIncludeSessionDetails, in-process sessions under RequireLocalAuth are remote sessions for the model, queue overflow, transports/serializers, goroutine "
                "interleavings inside the router (C04, C07, C08, C14, C15). Trusted: Coq kernel, ExtrOcamlBasic extraction + ocaml/router/driver.ml, "
                "the harness and its canonicaliser.")
 
